@@ -280,7 +280,14 @@ class Builtins:
             arr = ex.list_arr(st, xs)
             xv = SV(xs.ty.args[0], ex.select(arr, j))
             prev = st.vars.get(g.target.id)
-            body = ex.pure(st.setvar(g.target.id, xv), e.elt, cx)
+            # the element expression is evaluated once, at the symbolic index j: it must not fork, raise or write;
+            # type facts it picks up about xs[j] (assumed of every field read) are kept
+            box = []
+            ex.ev(st.setvar(g.target.id, xv), e.elt, cx, lambda s_, v_: box.append((s_, v_)) or [])
+            if len(box) != 1 or (box[0][0].heap is not st.heap and box[0][0].heap != st.heap):
+                raise_vc(f'comprehension element may raise or has effects: {ast.unparse(e)}')
+            body = box[0][1]
+            st = st.copy(pc=box[0][0].pc)
             if ety is not None and body.ty != ety:
                 body = ex.coerce(body, ety, 'comprehension element')
             s2, r = ex.new_list(st, T.lst(body.ty), ex.list_len(st, xs), z3.Lambda([j], body.z), 'comp')
